@@ -99,6 +99,7 @@ func runC10(w *World, r *Report) {
 		r.Rule("R-FOLDCONST", "fold only constants", 1)
 	}
 	ruleFoldNoFail(w, r)
+	ruleOpResolve(w, r)
 }
 
 // ---- R-STATELESS --------------------------------------------------------------
